@@ -273,7 +273,9 @@ def run_one_path(ex: Exec, repo, c: Contract, mod, node, case, res: FunctionResu
     for name, ty in case.items():
         params[name] = ty.fresh(ex, name, fixed=True)
     fr.locals.update(params)
-    fr.old = ex.snapshot(params)
+    for name, ty in c.ghost.items():
+        fr.locals[name] = ty.fresh(ex, name, fixed=True)
+    fr.old = ex.snapshot(fr.locals)
     for clause in c.pre:
         ex.assume(ex.spec_bool(clause, fr))
     # vacuity: precondition must be satisfiable
